@@ -528,17 +528,26 @@ def run(ck):
     model_out = ck.run_lines(model, margs, lines)
 
     stats = {"parse": 0, "strict": 0, "permissive": 0, "contract_ok": 0, "contract_bad_parse": 0, "panics": 0,
-             "snapshots_compared": 0, "clone_ops": 0, "nontrivial": 0}
+             "snapshots_compared": 0, "clone_ops": 0}
     ophist = {}
     disagreements = oracle_fail = 0
     nontrivial = set()
     samples = []
+    shown = {}
+    kf_samples = {}
     need_noclone = []       # indexes whose Spec tree differs: decide the class with a second model run
 
     def record_violation(what, idx, extra, case_class=None):
         nonlocal oracle_fail
         kind, origin, ops, _ = replay_cases[idx]
         oracle_fail += 1
+        key = what.split(":")[0][:60]
+        if case_class is not None and ck.match_known(case_class):
+            kf_samples.setdefault(case_class, origin if origin else "R " + " ; ".join(o for o in ops if o != "#dump"))
+        if not (case_class is not None and ck.match_known(case_class)):
+            shown[key] = shown.get(key, 0) + 1
+            if shown[key] > 3:      # at most three replay files per kind of failure
+                return
         payload = {"kind": "failing-input", "case": origin if origin else "R " + " ; ".join(o for o in ops if o != "#dump"),
                    "ops": [o for o in ops if o != "#dump"]}
         payload.update(extra)
@@ -654,9 +663,13 @@ def run(ck):
                     confined = [strip_sc(r) for r in roots] == [strip_sc(r) for r in sroots]
                 except Exception:       # noqa
                     confined = False
-                if has_clone and confined and sn["TREE"] == noclone_tree:
-                    cls = KF_SELF_DATA
+                if not sc_filled:
+                    # code with `self.data`: the only admissible signature is "the clone requests did nothing"
+                    if has_clone and confined and sn["TREE"] == noclone_tree:
+                        cls = KF_SELF_DATA
                 elif has_clone and confined and model_agrees:
+                    # code with `node.data`: the model (breadth-first search) predicts RcDom's tree exactly and
+                    # the difference to the specification is confined to selectedcontent children
                     cls = KF_BFS
                 if still_bad:
                     record_violation("RcDom's tree differs from the abstract DOM computed from the same operations", idx,
@@ -692,6 +705,7 @@ def run(ck):
                 + ", ".join(OPNAMES_RARE),
         "samples": samples, "op_histogram": ophist, "case_counts": stats,
         "correspondence_disagreements": disagreements, "oracle_failures": oracle_fail,
+        "known_finding_samples": kf_samples,
         "explanation": "Props/C20.v: RcModel refines DomSpec for all contract-respecting op sequences outside the "
                        "option->selectedcontent finding, parent-link/NoDup/acyclicity invariant, Serialize = pre-order; the "
                        "model is tied to rcdom/lib.rs by replaying the same traces (every intermediate #dump snapshot and the "
